@@ -509,7 +509,9 @@ class Interp:
             if found is not None:
                 kind, mod, cls, n = found
                 if kind == "method":
-                    return Closure(n, Env(mod, owner_cls=cls), mod, owner_cls=cls)
+                    clo = Closure(n, Env(mod, owner_cls=cls), mod, owner_cls=cls)
+                    clo._via_class = True
+                    return clo
                 return self.eval(n, Env(mod))
         if isinstance(recv, (SList, PyList, PyDict, SDict)) or kind_of(recv) in (STR, BYTES) or isinstance(recv, (tuple, frozenset)):
             return BoundMethod(recv, attr)
@@ -521,6 +523,8 @@ class Interp:
             return ModuleRef("%s.%s" % (recv.name, attr))  # e.g. object.__repr__ with a pack model
         if default is not KeyError:
             return default
+        if recv is None and not attr.startswith("__"):
+            self.raise_("AttributeError")  # 'NoneType' object has no attribute ...
         self.unsupported(node, "attribute %s of %r" % (attr, recv))
 
     def e_Subscript(self, node, env):
@@ -829,6 +833,9 @@ class Interp:
 
     def call_super(self, sup, name, args, kwargs, node):
         env = sup.attrs["env"]
+        h = self.pack.models.get("super." + name)
+        if h is not None:
+            return h(self, sup, args, kwargs)  # an external base class method, summarised by the pack
         self_obj = env.lookup("self")
         cls = env.owner_cls
         found = self.pack.find_attr(self_obj.cls, name, after=cls)
@@ -1012,6 +1019,11 @@ class Interp:
         fnode = clo.node
         if "staticmethod" in decos and clo.owner_cls and args and isinstance(args[0], SObj) and getattr(clo, "_bound", False):
             args = args[1:]
+        if "classmethod" in decos and clo.owner_cls:
+            if getattr(clo, "_via_class", False):
+                args = [ClassRef(clo.owner_cls)] + list(args)   # Cls.method(...): the class is the first argument
+            elif args and isinstance(args[0], SObj) and getattr(clo, "_bound", False):
+                args = [ClassRef(args[0].cls)] + list(args[1:])
         env = Env(clo.module, clo.env, getattr(fnode, "name", "<lambda>"), clo.owner_cls)
         self.bind(fnode, args, kwargs, env, node)
         if isinstance(fnode, ast.Lambda):
